@@ -159,7 +159,7 @@ class Gen:
             return mk("OU" + r.choice("jJ"), clock, jumbo=(self.uid.to_bytes(4, "little") * (ln // 4 + 1))[:ln])
         return mk("OU" + r.choice(PLAIN), clock, self.payload())
 
-    def stream(self, tid, cpu, flaw=None):
+    def stream(self, tid, cpu, flaw=None, big=False):
         """-> (events, features).  flaw in None | unterminated | nested | stray-end | plain-ooo |
         body-above-end | bigclock | noheader"""
         r = self.r
@@ -169,13 +169,13 @@ class Gen:
         hdr = flaw != "noheader"
         if hdr:
             evs.append(mk("OHx", cur, cpu.to_bytes(4, "little") + tid.to_bytes(4, "little") + bytes(4)))
-        nseg = r.choice([1, 1, 2, 2, 3, 4, 6])
+        nseg = r.choice([1, 1, 2, 2, 3, 4, 6]) if not big else r.choice([8, 15, 30])
         dense = r.chance(1, 3)          # many equal clocks
         steps = [0, 0, 0, 1] if dense else [0, 1, 1, 2, 5, 100]
         flaw_seg = r.below(nseg)
         for seg in range(nseg):
             early = (seg == 0 and r.chance(1, 3))
-            for _ in range(0 if early else r.choice([0, 1, 2, 3, 5, 8, 13])):
+            for _ in range(0 if early else r.choice([0, 1, 2, 3, 5, 8, 13]) * (r.choice([1, 3, 8]) if big else 1)):
                 cur += r.choice(steps)
                 evs.append(self.ev(cur))
             if flaw == "plain-ooo" and seg == flaw_seg and evs:
@@ -193,10 +193,10 @@ class Gen:
             if kind < 14:
                 feats.add("empty-region")
             else:
-                nb = r.choice([1, 1, 1, 2, 2, 3, 5, 8, 20])
+                nb = r.choice([1, 1, 1, 2, 2, 3, 5, 8, 20]) if not big else r.choice([1, 2, 5, 20, 60])
                 prev = [e["clock"] for e in evs]
                 # how deep the body goes: index of an earlier event whose clock is the base
-                d = r.choice([0, 0, 1, 1, 2, 3, 5, 8, 13, len(prev) - 1, len(prev)])
+                d = r.choice([0, 0, 1, 1, 2, 3, 5, 8, 13, len(prev) - 1, len(prev)] + ([40, 100, 300] if big else []))
                 d = min(d, len(prev) - 1)
                 base = prev[len(prev) - 1 - d]
                 style = r.below(6)
@@ -262,11 +262,14 @@ FLAWS = [None] * 14 + ["unterminated", "nested", "stray-end", "plain-ooo", "body
 def gen_case(r, k):
     g = Gen(r)
     nthreads = 2 if r.chance(1, 10) else 1
+    big = r.chance(1, 12)
     streams = []
     feats = set()
     for t in range(nthreads):
         flaw = r.choice(FLAWS)
-        evs, f = g.stream(100 + t, t, flaw)
+        evs, f = g.stream(100 + t, t, flaw, big)
+        if big:
+            f.add("long-stream")
         streams.append({"tid": 100 + t, "events": evs, "flaw": flaw})
         feats |= f
     # choose -n around what the streams need
